@@ -2,3 +2,4 @@ import Siot.Basic
 import Siot.Props.C14
 import Siot.Props.C16
 import Siot.Props.C17
+import Siot.Props.C18
